@@ -162,8 +162,9 @@ def check_c11(pid, tier, seed, replay):
     validate_sessions(ck, run_cli("dbg", cases, "R"), 14, describe_dbg, "R", "dbg")
     ck.cov["exhaustive"] = True
     # one command deeper on the two shortest looping programs (a back edge to the first command)
-    cases, n = mc_dbg(ck, 4 if quick else 5, "{7, 8}")
-    validate_sessions(ck, run_cli("dbg", cases, "R4"), 14, describe_dbg, "R4", "dbg")
+    if quick:
+        cases, n = mc_dbg(ck, 4, "{7, 8}")
+        validate_sessions(ck, run_cli("dbg", cases, "R4"), 14, describe_dbg, "R4", "dbg")
     with open(cases) as f:
         f.readline()
         c = json.loads(f.readline())
@@ -177,6 +178,10 @@ def check_c11(pid, tier, seed, replay):
     for plen in (9, 10, 11, 12, 99, 100, 101):
         p = out_soup(rng, plen)
         tc.append({"prog": p, "script": rand_script(rng, plen, 40) + [["b", plen - 1], ["bl"], ["r"], ["bl"], ["s"]]})
+    for ws in (32, 0xA0, 0x3000):
+        p = M.print_cps([65]) + M.print_cps([ws]) + M.print_cps([ws], 2) + M.print_cps([66, ws]) + M.print_cps([ws, ws], 2)
+        tc.append({"prog": p, "script": [["n"]] * len(p) })
+        tc.append({"prog": p, "script": [["b", len(M.print_cps([65]) + M.print_cps([ws]))], ["r"], ["s"], ["r"], ["s"]]})
     work = tmpdir("c11_T")
     cpath = os.path.join(work, "cases.json")
     M.write_cases(cpath, tc)
@@ -273,6 +278,11 @@ def check_c12(pid, tier, seed, replay):
         tc.append({"lines": [{"kind": "code", "cmds": a[:k]}, {"kind": "code", "cmds": a[k:]}, {"kind": "clear"},
                              {"kind": "code", "cmds": b}] if k < len(a) else
                             [{"kind": "code", "cmds": a}, {"kind": "clear"}, {"kind": "code", "cmds": b}]})
+    # output chunks that consist of white space only (shown exactly once like any other character)
+    for ws in (32, 0xA0, 0x3000, 0x2003):
+        for stream in (1, 2):
+            tc.append({"lines": [{"kind": "code", "cmds": M.print_cps([65])}, {"kind": "code", "cmds": M.print_cps([ws], stream)},
+                                 {"kind": "code", "cmds": M.print_cps([ws, ws]) + M.print_cps([ws], 2)}, {"kind": "code", "cmds": M.print_cps([66, ws])}]})
     work = tmpdir("c12_T")
     cpath = os.path.join(work, "cases.json")
     M.write_cases(cpath, tc)
